@@ -845,6 +845,13 @@ func (g *gen) sWhere() {
 	g.tmp++
 	w := fmt.Sprintf("w%d", g.tmp)
 	form := func(name string) { g.f("where:" + name); g.wherev[id] = true }
+	// inner is the body of the branching forms: with a yield atom in it the whole statement is compiled in its
+	// resumable (flattened) form, in which all conditions are evaluated ahead of the branches
+	inner := "a++"
+	if g.r.Bool() {
+		g.f("where:in-flattened-statement")
+		inner = fmt.Sprintf("a += y.Y(%d)", g.nextAtom())
+	}
 	switch g.r.Intn(36) {
 	case 0:
 		// the marker sits in the tail of a statement, after a function literal
@@ -856,7 +863,7 @@ func (g *gen) sWhere() {
 	case 2:
 		form("if-condition")
 		g.line("if %s > 99999 {", v)
-		g.line("\ta++")
+		g.line("\t" + inner)
 		g.line("}")
 	case 3:
 		form("else-if-condition")
@@ -864,20 +871,23 @@ func (g *gen) sWhere() {
 		g.line("\tb++")
 		here()
 		g.line("} else if %s == 0 {", v)
-		g.line("\tb++")
+		g.line("\t" + inner)
 		g.line("}")
 	case 4:
 		form("switch-tag")
 		g.line("switch %s {", v)
 		g.line("case 0:")
-		g.line("\tc++")
+		g.line("\t" + inner)
 		g.line("}")
 	case 5:
 		form("case-expression")
 		g.line("switch {")
 		here()
-		g.line("case %s == 0:", v)
+		g.line("case a < -99999:")
 		g.line("\tc++")
+		here()
+		g.line("case %s == 0:", v)
+		g.line("\t" + inner)
 		g.line("}")
 	case 6:
 		form("for-init")
@@ -1398,6 +1408,9 @@ func (g *gen) function(idx int) {
 	g.line("_, _, _, _, _, _, _, _, _, _ = a, b, c, s, arr, sl, m, st, ps, pi")
 	g.line("_, _, _, _, _, _, _, _, _, _, _ = t, tv, e, i, fv, mv, bx, bv, ch, ch2, nilch")
 	g.line("_ = runtime.NumGoroutine")
+	if g.o.Where {
+		g.line("a += größe.ÄÖÜäöüÄÖÜäöü + größe.ÄÖÜäöüÄÖÜäöü + größe.ÄÖÜäöüÄÖÜäöü - 3")
+	}
 	if g.panicky && g.o.Unwind && g.r.Chance(1, 3) {
 		// the function does not recover its own panics, so a panic
 		// propagates through the deferred calls of its callers, which may suspend while it is in flight
@@ -1454,6 +1467,11 @@ type S struct {
 }
 
 var ks = [3]string{"a", "b", "c"}
+
+// Names outside ASCII survive minification: one UTF-8 byte is not one UTF-16 unit of a generated column.
+type Größe struct{ ÄÖÜäöüÄÖÜäöü int }
+
+var größe = Größe{ÄÖÜäöüÄÖÜäöü: 1}
 
 // NI and Stk are named non-struct types with pointer-receiver methods: calling one on a local variable takes the
 // variable's address implicitly.
